@@ -13,6 +13,7 @@ package main
 //	log      a call on a logger (Warnf, Infof, ...): diagnostics, not output
 //	exit     break out of the loop / return that is not an error return (first entry met wins)
 //	probe    return of constants only (true/false/nil/literals): an exists/forall test
+//	flag     x = <constant> for an outer x that receives this one constant only in the loop (found = true)
 //
 // Calls in expression position (right-hand sides, conditions) are taken to be effect-free, except a call
 // whose only results are `err` / `_` (made for its effect: counted as call); x = make(...) is ignored; error exits
@@ -27,7 +28,7 @@ package main
 //	             "sort" taking the target first), possibly with map stores
 //	MapInsert    map stores / deletes only
 //	LogOnly      logger calls only
-//	Reduce       counters / probes only
+//	Reduce       counters / probes / flags only
 //	NoEffect     nothing visible
 import (
 	"go/ast"
@@ -104,6 +105,8 @@ func classifyRange(si *srcImporter, info *types.Info, fd *ast.FuncDecl, rs *ast.
 		}
 		return false
 	}
+	flags := map[string]string{}  // target -> the one constant assigned to it
+	nonConst := map[string]bool{} // targets that also receive a non-constant
 	var stack []ast.Node
 	loopDepth := 0 // nested for/range/switch/select statements between rs and the current node (break binds to them)
 	var walk func(n ast.Node)
@@ -219,6 +222,17 @@ func classifyRange(si *srcImporter, info *types.Info, fd *ast.FuncDecl, rs *ast.
 				}
 				switch s.Tok {
 				case token.ASSIGN:
+					// x = <constant>: a flag; order-independent as long as the loop writes one constant only to x
+					if c, ok := constantSrc(rhs); ok {
+						t := nodeSrc(si, lhs)
+						if prev, seen := flags[t]; seen && prev != c {
+							ef.kinds["assign"] = true
+						}
+						flags[t] = c
+						ef.kinds["flag"] = true
+						continue
+					}
+					nonConst[nodeSrc(si, lhs)] = true
 					ef.kinds["assign"] = true
 				case token.ADD_ASSIGN:
 					if lit, ok := rhs.(*ast.BasicLit); ok && (lit.Kind == token.INT) {
@@ -303,6 +317,11 @@ func classifyRange(si *srcImporter, info *types.Info, fd *ast.FuncDecl, rs *ast.
 		}
 	}
 	walk(rs.Body)
+	for t := range flags {
+		if nonConst[t] {
+			ef.kinds["assign"] = true
+		}
+	}
 
 	// which append targets are sorted after the loop, inside the same function?
 	unsorted := []string{}
@@ -333,10 +352,23 @@ func classifyRange(si *srcImporter, info *types.Info, fd *ast.FuncDecl, rs *ast.
 		return "MapInsert", detail
 	case k["log"]:
 		return "LogOnly", detail
-	case k["count"] || k["probe"]:
+	case k["count"] || k["probe"] || k["flag"]:
 		return "Reduce", detail
 	}
 	return "NoEffect", detail
+}
+
+// constantSrc: true / false / nil / a basic literal
+func constantSrc(e ast.Expr) (string, bool) {
+	switch x := e.(type) {
+	case *ast.BasicLit:
+		return x.Value, true
+	case *ast.Ident:
+		if x.Name == "true" || x.Name == "false" || x.Name == "nil" {
+			return x.Name, true
+		}
+	}
+	return "", false
 }
 
 var sortFuncs = map[string]bool{"Strings": true, "Ints": true, "Float64s": true, "Slice": true, "SliceStable": true, "Sort": true, "Stable": true}
